@@ -349,6 +349,16 @@ func errPosMovesWithText(text string, params map[string]interface{}) string {
 		{"ParseExpr", func(t string) error { _, e := mk(t).ParseExpr(); return e }},
 	} {
 		pe, ok := en.run(text).(*influxql.ParseError)
+		if ok && pe != nil && pe.Found == "EOF" && pe.Message == "" {
+			// "found EOF" says that every token of the text was read and more was expected: a blank at
+			// the end of the text changes nothing about that (round-5 seeded change C05-13 lost a final
+			// `-` / `/` in a look-ahead and reported the end of input instead of that token)
+			pe2, ok2 := en.run(text + " ").(*influxql.ParseError)
+			// (where the parser reads its next token without skipping blanks, `a::`, the blank itself is what is found)
+			if !ok2 || pe2 == nil || (pe2.Found != "EOF" && strings.TrimSpace(pe2.Found) != "") {
+				return fmt.Sprintf("%s(%q) fails with %q (every token read, more expected), but with one blank appended the outcome is %v: a token of the text was not read", en.name, text, pe.Error(), pe2)
+			}
+		}
 		if !ok || pe == nil || pe.Found == "EOF" || (pe.Pos == influxql.Pos{} && pe.Message != "") {
 			continue
 		}
